@@ -67,20 +67,59 @@ func Rewrite(stratum analysis.Program) analysis.Program {
 		// Make a new predicate that captures all variables.
 		p := clause.Head.Predicate
 
-		vars := make(map[ast.Variable]bool)
+		// A wildcard in a positive atom is an anonymous variable of the body:
+		// facts that differ only there are different solutions, exactly as for
+		// a single-atom premise. Give each one a name so it gets a column.
+		used := make(map[ast.Variable]bool)
+		ast.AddVars(clause.Head, used)
 		for _, premise := range clause.Premises {
+			ast.AddVars(premise, used)
+		}
+		for tr := clause.Transform; tr != nil; tr = tr.Next {
+			for _, stmt := range tr.Statements {
+				if stmt.Var != nil {
+					used[*stmt.Var] = true
+				}
+				ast.AddVars(stmt.Fn, used)
+			}
+		}
+		premises := make([]ast.Term, len(clause.Premises))
+		vars := make(map[ast.Variable]bool)
+		for i, premise := range clause.Premises {
+			switch t := premise.(type) {
+			case ast.Atom:
+				premise = nameWildcards(t, used)
+			case ast.TemporalLiteral:
+				if a, ok := t.Literal.(ast.Atom); ok {
+					t.Literal = nameWildcards(a, used)
+					premise = t
+				}
+			}
+			premises[i] = premise
 			getVars(premise, vars)
 		}
-		// Wildcard variables _ do not correspond to any column in the result relation.
+		// Remaining wildcards _ do not correspond to any column in the result relation.
 		delete(vars, ast.Variable{"_"})
 
 		internalPred := gen.freshPredicateName(p, len(vars))
 
 		newHead := makeHead(internalPred, vars)
-		newRules = append(newRules, ast.Clause{newHead, nil, clause.Premises, nil})
+		newRules = append(newRules, ast.Clause{newHead, nil, premises, nil})
 		newRules = append(newRules, ast.Clause{clause.Head, clause.HeadTime, []ast.Term{newHead}, clause.Transform})
 	}
 	return analysis.Program{stratum.EdbPredicates, stratum.IdbPredicates, newRules}
+}
+
+// nameWildcards replaces each wildcard argument of atom with a variable that is not in used.
+func nameWildcards(atom ast.Atom, used map[ast.Variable]bool) ast.Atom {
+	args := make([]ast.BaseTerm, len(atom.Args))
+	for i, arg := range atom.Args {
+		if v, ok := arg.(ast.Variable); ok && v.Symbol == "_" {
+			arg = ast.FreshVariable(used)
+		}
+		args[i] = arg
+	}
+	return ast.Atom{atom.Predicate, args}
 }
 
 type nameGen struct {
